@@ -95,6 +95,20 @@ func genFsCase(r *Rng, out *outFiles) {
 			a, b, c2 := r.Pick(fragNames), r.Pick([]string{"in1", "in2", "box"}), r.Pick([]string{"deep", "f1"})
 			content = fmt.Sprintf(`<div :define="%s">x<i :define="%s">y</i></div><ul><li><b :define="%s">z</b></li></ul>`, a, b, c2)
 			frags[name] = []string{a, b, c2}
+		case c < 80: // a raw-text element closed in another letter case, with a definition AFTER it
+			fn := r.Pick(fragNames)
+			rt := r.Pick([]string{"title", "script", "style", "textarea"})
+			cs := func(x string) string {
+				switch r.Intn(3) {
+				case 0:
+					return strings.ToUpper(x)
+				case 1:
+					return strings.ToUpper(x[:1]) + x[1:]
+				}
+				return x
+			}
+			content = fmt.Sprintf(`<%s>a<b</%s><div :define="%s">x</div>`, cs(rt), cs(rt), fn)
+			frags[name] = []string{fn}
 		case c < 85:
 			content = `<p :text="${name}">` + "\n</p>"
 		default:
